@@ -203,6 +203,7 @@ class ModGen:
     def __init__(self, rng, tier):
         self.rng = rng
         self.tier = tier
+        self.py_ok = True       # python builtins / PEP-585 generics are only legal in annotations
         self.enums = []
         self.structs = {}        # name -> info {fields: {name: finfo}, required: set, custom_init, immutable}
 
@@ -215,7 +216,7 @@ class ModGen:
         refs = [n for n, s in self.structs.items() if not s["hidden"]]
         if refs and r.random() < 0.12:
             return ["Ref", r.choice(refs)]
-        if r.random() < 0.15:
+        if self.py_ok and r.random() < 0.15:
             return ["py", r.choice(PY_SCALARS)]
         return [r.choice(SCALARS)]
 
@@ -229,7 +230,8 @@ class ModGen:
             opt = ["AnyOf", self.scalar(), ["None"]]
             return r.choice([["Map", ["String"], opt], ["AnyOf", ["String"], opt], ["OneOf", opt, ["Integer"]],
                              ["Tuple", ["String"], opt], ["Array", opt]])
-        c = r.choice(["Array", "Set", "Deque", "Tuple", "Map", "AnyOf", "OneOf", "pylist", "pydict", "AnyOfNoneFirst"])
+        c = r.choice(["Array", "Set", "Deque", "Tuple", "Map", "AnyOf", "OneOf", "AnyOfNoneFirst"]
+                     + (["pylist", "pydict"] if self.py_ok else []))
         if c in ("Array", "Deque", "pylist"):
             return [c, inner()]
         if c == "Set":
@@ -285,6 +287,7 @@ class ModGen:
     def struct(self, name, nested_ok):
         r = self.rng
         it = {"kind": "struct", "name": name, "style": "annot" if r.random() < 0.8 else "assign"}
+        self.py_ok = it["style"] == "annot"
         cands = [n for n, s in self.structs.items() if not s["custom_init"] and not s["immutable"]]
         bases = []
         x = r.random()
@@ -313,7 +316,7 @@ class ModGen:
             if b["b"] == "AllFieldsRequired" and any(fi["const"] for fi in self.structs[src]["all"].values()):
                 b = {"b": "Extend", "of": src}      # AllFieldsRequired + Constant raises AttributeError (C12 finding)
             bases.append(b)
-        elif x < 0.76:
+        elif 0.7 <= x < 0.76:
             bases.append({"b": "ImmutableStructure"})
         if not bases:
             bases.append({"b": "Structure"})
@@ -375,6 +378,16 @@ class ModGen:
             opt = [n for n in cand if r.random() < 0.5]
             if opt:
                 it["optional"] = opt
+        if override and inherited[override]["req"] and not inherited[override]["const"]:
+            # an own non-constant field that overrides an inherited *required* one must stay required
+            # (otherwise make_signature produces a duplicate parameter: invalid definition, C14's business)
+            f = fields[-1]
+            if f.get("const") is None:
+                f.pop("default", None)
+                if it.get("required") is not None and override not in it["required"]:
+                    it["required"].append(override)
+                if it.get("optional") is not None:
+                    it["optional"] = [n for n in it["optional"] if n != override] or None
         if r.random() < 0.35:
             it["addl"] = r.random() < 0.5
         if r.random() < 0.15:
@@ -573,6 +586,18 @@ def parse_stub(text):
         elif isinstance(node, ast.FunctionDef):
             funcs.append(node.name)
     return classes, funcs
+
+
+def extra_import_lines(text):
+    """the `sorted(extra_imports)` block of `add_imports`: between `from typedpy import Structure`, "" and the
+    module's own first import (`import enum` in every generated module)"""
+    lines = text.split("\n")
+    try:
+        i = lines.index("from typedpy import Structure")
+        j = lines.index("import enum", i)
+    except ValueError:
+        return None
+    return [l for l in lines[i + 2:j]]
 
 
 def load_module(path, key):
@@ -790,6 +815,7 @@ def run_impl(case):
             res["gen_err"] = f"{type(e).__name__}: {e}"[:300]
             text = None
         if text is not None:
+            res["extra_imports"] = extra_import_lines(text)
             try:
                 classes, funcs = parse_stub(text)
                 res["stub"] = {"classes": classes, "funcs": funcs}
@@ -859,6 +885,11 @@ def line(case, impl):
     if "table" in impl:
         l["classes"] = [{k: v for k, v in d.items() if k != "generated"} for d in impl["table"]]
         l["targets"] = impl["targets"]
+    ex = impl.get("extra_imports")
+    if ex and all(x.startswith("from ") and " import " in x for x in ex):
+        # the (name, module) items, handed to the model in reverse order and doubled (a set has no order/multiplicity)
+        items = [[x.split(" import ", 1)[1], x[len("from "):].split(" import ", 1)[0]] for x in ex]
+        l["imports"] = list(reversed(items)) + items
     return l
 
 
